@@ -309,23 +309,30 @@ def isValid (s : Bytes) : Res Bool :=
 
 /-! ### GetSigOpCount (repaired: D2, D3) -/
 
-def sigOpsLoop (accurate : Bool) : Nat → Nat → List RawOp → Res Nat
-  | n, _, [] => .ok n            -- generator exhausted, or its CScriptInvalidError swallowed
-  | n, last, o :: r =>
-    let opcode := o.opcode
-    if opcode = 0xac ∨ opcode = 0xad then sigOpsLoop accurate (n + 1) opcode r
-    else if opcode = 0xae ∨ opcode = 0xaf then
-      if accurate ∧ 0x51 ≤ last ∧ last ≤ 0x60 then
-        match cscriptOpNew (last : Int) with
+/-- body of the `for` loop: the new value of `n` -/
+def sigOpsStep (accurate : Bool) (n last opcode : Nat) : Res Nat :=
+  if opcode = 0xac ∨ opcode = 0xad then .ok (n + 1)
+  else if opcode = 0xae ∨ opcode = 0xaf then
+    if accurate ∧ 0x51 ≤ last ∧ last ≤ 0x60 then
+      match cscriptOpNew (last : Int) with          -- CScriptOp(lastOpcode)
+      | .error e => .error e
+      | .ok lo =>
+        match decodeOpN lo with                     -- .decode_op_n()
         | .error e => .error e
-        | .ok lo =>
-          match decodeOpN lo with
-          | .error e => .error e
-          | .ok k => sigOpsLoop accurate (n + k) opcode r
-      else sigOpsLoop accurate (n + 20) opcode r
-    else sigOpsLoop accurate n opcode r
+        | .ok k => .ok (n + k)
+    else .ok (n + 20)
+  else .ok n
+
+/-- the loop over the operations the generator yields; when the generator is exhausted or raises
+    CScriptInvalidError (swallowed by the `except`), `n` is returned -/
+def sigOpsLoop (accurate : Bool) : List RawOp → Nat → Nat → Res Nat
+  | [], n, _ => .ok n
+  | o :: r, n, last =>
+    match sigOpsStep accurate n last o.opcode with
+    | .error e => .error e
+    | .ok n' => sigOpsLoop accurate r n' o.opcode
 
 def getSigOpCount (s : Bytes) (accurate : Bool) : Res Nat :=
-  sigOpsLoop accurate 0 0xff (rawIter s).1
+  sigOpsLoop accurate (rawIter s).1 0 0xff
 
 end BtcVerif.Model.Script
